@@ -471,11 +471,53 @@ class Engine:
                 return (x.sexpr(), y.as_long())
         return (a.sexpr(), 0)
 
+    # ---- separated regions (Contract.separated) ----------------------------------------------------------------
+    def _mem_register(self, mem, base, log):
+        self.mem_info[mem.get_id()] = (mem, base, log)
+
+    def _mem_derive(self, old, new, entry):
+        info = getattr(self, 'mem_info', {}).get(old.get_id())
+        if info is not None:
+            self._mem_register(new, info[1], info[2] + [entry])
+
+    def _region_of(self, addr, n):
+        base, off = self._addr_key(addr)
+        for i, (rb, ro, rs) in enumerate(getattr(self, 'sep', ()) or ()):
+            if rb == base and ro <= off and off + n <= ro + rs:
+                return i
+        return None
+
+    def _filtered_mem(self, mem, addr, n):
+        if not getattr(self, 'sep', None):
+            return mem
+        info = self.mem_info.get(mem.get_id())
+        if info is None or not info[2]:
+            return mem
+        R = self._region_of(addr, n)
+        if R is None:
+            return mem
+        ck = (mem.get_id(), R)
+        if ck in self.mem_filtered:
+            return self.mem_filtered[ck][1]
+        m = info[1]
+        skipped = False
+        for (a2, n2, bs2) in info[2]:
+            R2 = self._region_of(a2, n2)
+            if R2 is not None and R2 != R:
+                skipped = True
+                continue
+            for k in range(n2):
+                m = z3.Store(m, simp(a2 + BV(k, self.pbits)), bs2[k])
+        res = m if skipped else mem
+        self.mem_filtered[ck] = (mem, res)
+        return res
+
     def _load_raw(self, bytes_, mem, ptr, n, st, want_ptr=False):
         if isinstance(ptr, FnPtr):
             raise OutOfReach('load through function pointer')
         if ptr.obj is None or ptr.obj.kind == 'extglobal':
             addr = self.ptr_to_bv(ptr)
+            mem = self._filtered_mem(mem, addr, n)
             bs = [z3.Select(mem, simp(addr + BV(k, self.pbits))) for k in range(n)]
             v = bs[0] if n == 1 else z3.Concat(*reversed(bs))
             v = simp(v)
@@ -600,8 +642,10 @@ class Engine:
                 if key[0] != base or not (key[1] + key[2] <= off or off + n <= key[1]):
                     del st.typed[key]
             m = st.mem
+            terms = [self._byte_term(bs[k]) for k in range(n)]
             for k in range(n):
-                m = z3.Store(m, simp(addr + BV(k, self.pbits)), self._byte_term(bs[k]))
+                m = z3.Store(m, simp(addr + BV(k, self.pbits)), terms[k])
+            self._mem_derive(st.mem, m, (addr, n, terms))
             st.mem = m
             fr = st.frames[-1] if st.frames else None
             st.ext_stores.append((addr, n, fr.fn.demangled if fr else '?', ins.line if ins is not None else None))
@@ -668,6 +712,8 @@ class Engine:
             fresh_arr = z3.Array('%s!%d' % (tag, next(self.fresh_ctr)), z3.BitVecSort(self.pbits), z3.BitVecSort(8))
             a = z3.BitVec('hv_a', self.pbits)
             st.mem = z3.Lambda([a], z3.If(z3.ULT(a - base, BV(n, self.pbits)), z3.Select(fresh_arr, a), z3.Select(st.mem, a)))
+            if hasattr(self, 'mem_info'):
+                self._mem_register(st.mem, st.mem, [])
             return
         bs = [self.fresh(tag, 8) for _ in range(n)]
         if ptr.obj is None or ptr.obj.kind == 'extglobal':
@@ -676,6 +722,7 @@ class Engine:
             m = st.mem
             for k in range(n):
                 m = z3.Store(m, simp(addr + BV(k, self.pbits)), bs[k])
+            self._mem_derive(st.mem, m, (addr, n, list(bs)))
             st.mem = m
         else:
             data = st.bytes[ptr.obj.id]
@@ -935,6 +982,13 @@ class Contract:
         self.self_defs = None
         # labels of postconditions that are proved but not handed to callers (callers get an equivalent, lighter clause)
         self.private = ()
+        # entry_defs: like self_defs, but assumed from function entry on (needed when the unfolded definition discharges the
+        # precondition of a callee inside the body)
+        self.entry_defs = None
+        # separated(c) -> [(address term, size)]: regions that the precondition makes pairwise disjoint.  The engine proves that from
+        # the precondition (one obligation per pair) and then resolves a read inside one region past the stores into the others
+        # syntactically, instead of leaving the aliasing question to the solver.
+        self.separated = None
         # lang_requires: guarantees of the language / calling convention (distinct references do not overlap, ...);
         # requires: the domain over which the functional postcondition is stated
         self.lang_requires = lang_requires or (lambda c: [])
@@ -1115,6 +1169,10 @@ class Executor(Engine):
         first_ob = len(self.obligations)
         st = State()
         st.mem = z3.Const('mem0', self.mem_sort)
+        self.mem_info = {}
+        self.mem_filtered = {}
+        self.sep = []
+        self._mem_register(st.mem, st.mem, [])
         args = self.make_args(fn, st)
         if contract.inputs:
             # argument values that the contract's precondition fixes in terms of other arguments (e.g. q == p + 6) are substituted,
@@ -1128,6 +1186,18 @@ class Executor(Engine):
         ctx.ghost = st.ghost
         pre = [simp(p) if not isinstance(p, bool) else z3.BoolVal(p) for p in contract.requires(ctx)]
         st.pc.extend(pre)
+        if contract.entry_defs is not None:
+            st.pc.extend(simp(e) for _, e in contract.entry_defs(ctx))
+        if contract.separated is not None:
+            regs = [(simp(a), nn) for a, nn in contract.separated(ctx)]
+            top = BV((1 << self.pbits) - 1 - 4096, self.pbits)
+            for i in range(len(regs)):
+                self.ob(st, 'post', None, z3.ULE(regs[i][0], top), name='%s#separated#region-%d-does-not-wrap' % (short_fn(contract.name), i))
+                for j in range(i + 1, len(regs)):
+                    (a, na), (b, nb) = regs[i], regs[j]
+                    self.ob(st, 'post', None, z3.Or(z3.UGE(a, b + BV(nb, self.pbits)), z3.UGE(b, a + BV(na, self.pbits))),
+                            name='%s#separated#regions-%d-%d-disjoint-by-the-precondition' % (short_fn(contract.name), i, j))
+            self.sep = [self._addr_key(a) + (nn,) for a, nn in regs]
         self.top_ctx = ctx
         self.top_contract = contract
         self.top_assigns = contract.assigns(ctx) if contract.assigns else []
